@@ -1985,6 +1985,25 @@ def m_text_predicate(I, st, info, args, depth):
     return ret(st, SymBool((op,) + tuple(describe(I, st, a) for a in args)))
 
 
+@model(r"^core::str::<impl str>::(trim|trim_start|trim_end|trim_ascii|trim_ascii_start|trim_ascii_end|trim_matches|trim_start_matches|trim_end_matches)$|"
+       r"^core::slice::ascii::<impl \[u8\]>::(trim_ascii|trim_ascii_start|trim_ascii_end)$")
+def m_trim(I, st, info, args, depth):
+    """a part of the text: not longer than the text, possibly empty although the text is not; known texts are trimmed as they are"""
+    x = deref(I, st, args[0])
+    op = info["tdef"].split("::")[-1]
+    if isinstance(x, StrV) and isinstance(x.s, str) and "matches" not in op:
+        ws = " \t\n\r\x0c" if "ascii" in op else None
+        f = {"trim": str.strip, "trim_start": str.lstrip, "trim_end": str.rstrip, "trim_ascii": str.strip, "trim_ascii_start": str.lstrip, "trim_ascii_end": str.rstrip}[op]
+        return ret(st, StrV(f(x.s, ws) if ws else f(x.s)))
+    if not isinstance(x, Seq):
+        return None
+    nm = "%s(%s)" % (op, x.name)
+    ln = Aff.sym("len(%s)" % nm)
+    lo, hi = st.range_of(x.length)
+    st.bounds["len(%s)" % nm] = (0, max(0, hi))
+    return ret(st, Seq(nm, ln, kind=x.kind, attrs={"part_of": x.name}))
+
+
 @model(SAFE_STD)
 def m_safe_std(I, st, info, args, depth):
     """opaque result; closures handed to the function are interpreted once on opaque arguments so that their panic sites are inventoried"""
